@@ -197,6 +197,9 @@ func genC03(r *rand.Rand, tier string, env *Env) []Case {
 			lines = append(lines[:at:at], append([]string{l}, lines[at:]...)...)
 		}
 		p.Input = strings.Join(lines, "\n")
+		if chance(r, 0.4) {
+			addNestedDefs(r, p) // chains of definitions: the two map loops of expandDefinitions
+		}
 		gargs := p.genOp().Args
 		rep := bytes.Repeat([]byte{'x'}, reps)
 		c := Case{Kind: "program", Ops: []Op{p.parseOp(), p.genOp()}, Oracles: []Op{{"c03.repeat", append([][]byte{rep}, gargs...)}}}
